@@ -68,6 +68,44 @@ def litOutcome (digits sfx annot : String) : String :=
                 let goName := (rowOfTy b.2.2.2).map (·.goName) |>.getD "?"
                 s!"accept prim={b.2.1} val={v} tast={b.2.2.2} goty={goName} golit={String.ofList (goLit v)}"
 
+/-- `match (x : scrut) { <digits><suffix> => … }` through the modelled pipeline (check_pat + tast_builder + compile_match) -/
+def patOutcome (digits sfx scrut : String) : String :=
+  match rowOfName scrut with
+  | none => "no-scrutinee-type"
+  | some srow =>
+    -- literal type: the suffix's type, or (unsuffixed) the scrutinee's integer type
+    let litTy : Option String :=
+      if sfx == "" then some srow.ty else (Gen.NumTypes.patForms.find? (·.1 == sfx)).map (·.2.2)
+    match litTy.bind rowOfTy with
+    | none => "no-literal-type"
+    | some row =>
+      match IntTy.ofRust row.rust with
+      | none => "no-carrier"
+      | some t =>
+        let r := checkLit (row.kind == "unsigned") t digits.toList
+        let cls : List String :=
+          (match r with
+            | .doesNotFit => [s!"fit:{row.diag}"]
+            | .invalid => ["invalid"]
+            | .accept _ => []) ++ (if row.ty != srow.ty then ["mismatch"] else [])
+        if !cls.isEmpty then "reject typer " ++ "+".intercalate cls
+        else
+          let built : Option (String × String) :=
+            if sfx == "" then patPrimOf Gen.NumTypes.builderPatUnsuffixed row.ty
+            else (Gen.NumTypes.patForms.find? (·.1 == sfx)).bind fun f =>
+              (Gen.NumTypes.builderPat.find? (·.1 == f.2.1)).map fun b => (b.2.1, b.2.2.1)
+          match built with
+          | none => "no-builder-row"
+          | some (prim, kind) =>
+            -- compile_match extracts the key with `as_<scrutinee type>()`: a Prim of another variant panics
+            if prim != srow.prim then "panic expected integer primitive pattern"
+            else
+              match (rowOfPrim prim).bind (fun b => IntTy.ofRust b.rust) with
+              | none => "no-builder-carrier"
+              | some bt =>
+                let v := builderValue (kind == "unsigned") bt digits.toList
+                s!"accept cases=var:{srow.goName}/lit:{srow.goName}:{String.ofList (goLit v)}"
+
 def errName : ParseErr → String
   | .empty => "empty" | .invalidDigit => "invalidDigit" | .posOverflow => "posOverflow" | .negOverflow => "negOverflow"
 
@@ -127,6 +165,7 @@ def runLine (l : String) : String :=
   let unDash (s : String) : String := if s == "-" then "" else s
   match Sexp.parse rest with
   | some (.list [.atom "lit", .atom d, .atom s, .atom an]) => s!"{id}\t{litOutcome d (unDash s) (unDash an)}"
+  | some (.list [.atom "pat", .atom d, .atom s, .atom sc]) => s!"{id}\t{patOutcome d (unDash s) sc}"
   | some (.list [.atom "parse", .atom rust, .atom s]) =>
     match IntTy.ofRust rust with
     | some t =>
